@@ -405,6 +405,16 @@ class CallMixin:
                 return VNone()
             if name == 'copy':
                 return self.list_copy(obj)
+            if name == 'index' and len(args) == 1:
+                b, w = self.list_index_witness(obj, args[0])
+                self.oblige_safe('ValueError', b, 'list.index')
+                return VInt(w)
+            if name == 'pop' and not args:
+                n = self.llen(obj)
+                self.oblige_safe('IndexError', n > 0, 'list.pop')
+                v = self.list_get_typed(obj, n - 1)
+                self.list_remove_at(obj, n - 1)
+                return v
             raise Unsupported(f'list.{name}')
         if isinstance(obj.typ, ty.TDict):
             if name == 'keys':
@@ -418,6 +428,23 @@ class CallMixin:
                 v = self.dict_get(obj, args[0])
                 d = args[1] if len(args) > 1 else VNone()
                 return self.merge([(has, v), (z3.Not(has), d)])
+            if name == 'pop' and len(args) in (1, 2) and not kwargs:
+                has = self.dict_has(obj, args[0])
+                if len(args) == 1:
+                    self.oblige_safe('KeyError', has, 'dict.pop')
+                    v = self.dict_get(obj, args[0])
+                    self.dict_del(obj, args[0])
+                    return v
+                if self.branch(has):
+                    v = self.dict_get(obj, args[0])
+                    self.dict_del(obj, args[0])
+                    return v
+                return args[1]
+            if name == 'setdefault' and len(args) == 2 and not kwargs:
+                if self.branch(self.dict_has(obj, args[0])):
+                    return self.dict_get(obj, args[0])
+                self.dict_set(obj, args[0], args[1])
+                return self.dict_get(obj, args[0])
             h = self.builtin_hooks.get('dict.' + name)
             if h is not None:
                 return h(self, [obj] + args, kwargs, None)
